@@ -207,6 +207,10 @@ func Build(d Desc) (*Node, error) {
 				fs = []*Node{sibling(strings.TrimPrefix(parts[2], "before-")), &spine}
 			case strings.HasPrefix(parts[2], "after-"):
 				fs = []*Node{&spine, sibling(strings.TrimPrefix(parts[2], "after-"))}
+			case strings.HasPrefix(parts[2], "mid-"):
+				last := sibling(strings.TrimPrefix(parts[2], "mid-"))
+				last.Tag = `json:"t"`
+				fs = []*Node{sibling(strings.TrimPrefix(parts[2], "mid-")), &spine, last}
 			default:
 				fs = []*Node{&spine}
 			}
@@ -279,7 +283,9 @@ var uintVals = map[reflect.Kind][]uint64{
 }
 var f64Vals = []float64{0, 1.5, -2, 100, 1e21, 1e-7, 123456789.12345679, 0.1, 1e20, 5e-324, math.MaxFloat64, -1e-9, 4.35, 1e6}
 var f32Vals = []float64{0, 1.5, -2, 16777216, 1e21, 1e-7, 3.4e38, 0.1, 1.1754944e-38, 0.3, 1e6}
-var strVals = []string{"", "a", "hello world", "<é&\"\\\n>", " x\x7f", "12", "null", "\xff\xc0", strings.Repeat("x", 70) + "\t", "true"}
+var strVals = []string{"", "a", "hello world", "<é&\"\\\n>", " x\x7f", "12", "null", "\xff\xc0", strings.Repeat("x", 70) + "\t", "true",
+	// the last entry is what the "boundary" mode picks: the code points next to every UTF-8 length change and to the surrogate gap
+	"\u007f\u0080\u07ff\u0800\ud7ff\ue000\ufffd\uffff\U00010000\U0010ffff"}
 
 func (g *gen) value(n *Node, depth int) reflect.Value {
 	v := reflect.New(n.RT).Elem()
